@@ -37,14 +37,29 @@ def model_cases(chk, model, cfgfile=None, timeout=3000, xmx="24g"):
     if not r["ok"]:
         chk.model_violation(model, r)
         return None
-    cases = []
-    for ln in r["lines"]["CASE"]:
-        c = json.loads(ln)
-        c["cfg"] = side[str(c["cfg"])]
-        cases.append(c)
-    if not cases:
+    lines = r["lines"]["CASE"]
+    r["lines"]["CASE"] = None
+    if not lines:
         raise vc.Infra("model %s exported no case" % model)
-    return cases
+    return _LazyCases(lines, side)
+
+
+class _LazyCases:
+    """The exported cases of a model, parsed chunk by chunk (several million parsed cases are tens of gigabytes)."""
+    def __init__(self, lines, side):
+        self.lines, self.side = lines, side
+
+    def __len__(self):
+        return len(self.lines)
+
+    def chunks(self, n=100000):
+        for k in range(0, len(self.lines), n):
+            out = []
+            for ln in self.lines[k:k + n]:
+                c = json.loads(ln)
+                c["cfg"] = self.side[str(c["cfg"])]
+                out.append(c)
+            yield out
 
 
 def _denv(env, variant):
@@ -199,9 +214,14 @@ def summarize(cfg, st):
 
 
 def replay_model(chk, exe, model, variants=(0,), timeout=3000):
-    cases = model_cases(chk, model, timeout=timeout)
-    if cases is None:
+    allcases = model_cases(chk, model, timeout=timeout)
+    if allcases is None:
         return
+    for chunk_no, cases in enumerate(allcases.chunks()):
+        _replay_chunk(chk, exe, model, variants, cases, chunk_no)
+
+
+def _replay_chunk(chk, exe, model, variants, cases, chunk_no):
     dcs = []
     for c in cases:
         has_empty = any(e == [] for e in c["env"])
@@ -214,7 +234,7 @@ def replay_model(chk, exe, model, variants=(0,), timeout=3000):
             dm = driver_case(c, 0)
             dm["moved"] = True
             dcs.append((c, dm))
-    obs = vc.run_cases(exe, [d for _, d in dcs], chk.out, "replay_" + model, per_case_timeout=10)
+    obs = vc.run_cases(exe, [d for _, d in dcs], chk.out, "replay_%s_%d" % (model, chunk_no), per_case_timeout=10)
     skipped = 0
     for (c, d), o in zip(dcs, obs):
         if o.get("outcome") == "skipped":
@@ -223,7 +243,7 @@ def replay_model(chk, exe, model, variants=(0,), timeout=3000):
     chk.replayed += len(dcs) - skipped
     if skipped:
         chk.notes.append("%d cases of %s not examined (driver death budget used up)" % (skipped, model))
-    for c, d in dcs[:: max(1, len(dcs) // 2)][:2]:
+    for c, d in (dcs[:: max(1, len(dcs) // 2)][:2] if chunk_no == 0 else []):
         chk.sample(dict(kind="spec->code behaviour", model=model, calls=[dict(argv=show_argv(x["argv"]), expect=x["res"]["oc"], why=x["why"]) for x in c["calls"]],
                         env=[e if e == "unset" else _s(e) for e in d["env"]], decl=[vc.ub(x["name"]) + ":" + x["kind"] for x in c["cfg"]["decl"]]))
 
